@@ -77,13 +77,15 @@ type ccrOp struct {
 	Type   int    `json:"type"`   // CcRequestType
 	Amt    uint64 `json:"amt"`
 	Num    uint32 `json:"num"`
-	Sess   int    `json:"sess,omitempty"` // 0: a Session-Id of its own; 1: the subscriber's Session-Id (the CHF uses one per subscriber for all rating groups)
+	Sess   int    `json:"sess,omitempty"`
+	SubT   int    `json:"subT,omitempty"` // Subscription-Id-Type: 0 = END_USER_IMSI; 1 = E164, 2 = NAI carrying the same digits (not an IMSI subscriber) // 0: a Session-Id of its own; 1: the subscriber's Session-Id (the CHF uses one per subscriber for all rating groups)
 }
 
 type c07Target struct {
 	Imsi string
 	RG   uint32
-	Bal  int64 // -1: no account document
+	Bal  int64 // stored balance (may be negative: an account overdrawn by an earlier termination debit)
+	None bool  // no account document
 }
 
 type c07Args struct {
@@ -111,7 +113,7 @@ func c07Job(t *testing.T, raw json.RawMessage) (any, error) {
 	var out c07Out
 	cfg := WorldCfg{NoRF: true}
 	for _, tg := range a.Targets {
-		if tg.Bal >= 0 {
+		if !tg.None {
 			cfg.Accounts = append(cfg.Accounts, Account{"imsi-" + tg.Imsi, int32(tg.RG), strconv.FormatInt(tg.Bal, 10), "1"})
 		}
 	}
@@ -144,7 +146,7 @@ func c07Job(t *testing.T, raw json.RawMessage) (any, error) {
 					DestinationRealm: "go-diameter", DestinationHost: "server", UserName: datatype.OctetString("CHF"),
 					RequestedAction: cd.RequestedAction(op.Action), CcRequestType: cd.CcRequestType(op.Type), CcRequestNumber: datatype.Unsigned32(op.Num),
 					EventTimestamp: datatype.Time(time.Now()),
-					SubscriptionId: &cd.SubscriptionId{SubscriptionIdType: cd.END_USER_IMSI, SubscriptionIdData: datatype.UTF8String(tg.Imsi)},
+					SubscriptionId: &cd.SubscriptionId{SubscriptionIdType: []cd.SubscriptionIdType{cd.END_USER_IMSI, cd.END_USER_E164, cd.END_USER_NAI}[op.SubT], SubscriptionIdData: datatype.UTF8String(tg.Imsi)},
 					MultipleServicesCreditControl: &cd.MultipleServicesCreditControl{RatingGroup: datatype.Unsigned32(tg.RG),
 						RequestedServiceUnit: &cd.RequestedServiceUnit{CCTotalOctets: datatype.Unsigned64(op.Amt)},
 						UsedServiceUnit:      &cd.UsedServiceUnit{CCTotalOctets: datatype.Unsigned64(op.Amt)}}}
@@ -159,7 +161,7 @@ func c07Job(t *testing.T, raw json.RawMessage) (any, error) {
 				}
 				// reference model
 				bal := model[op.Acct]
-				known := bal >= 0
+				known := !tg.None && op.SubT == 0 // (the same digits under another Subscription-Id-Type name no IMSI subscriber)
 				var wantGrant int64 = -1
 				wantFUI := false
 				nb := bal
@@ -183,7 +185,7 @@ func c07Job(t *testing.T, raw json.RawMessage) (any, error) {
 				// stored balances: exactly the model
 				var wantBals []string
 				for j, t2 := range a.Targets {
-					if t2.Bal >= 0 {
+					if !t2.None {
 						wantBals = append(wantBals, fmt.Sprintf("imsi-%s/%d=%d", t2.Imsi, t2.RG, model[j]))
 					}
 				}
@@ -251,8 +253,9 @@ func init() {
 		pool := NewPool(0)
 		var big int64 = 1 << 62
 		targetSets := [][]c07Target{
-			{{"208930000000001", 1, 100}, {"208930000000001", 2, 0}, {"208930000000002", 1, 1}, {"208930000000009", 1, -1}, {"208930000000001", 9, -1}, {"208930000000001", 0, -1}, {"208930000000002", math.MaxUint32, -1}},
-			{{"208930000000001", 1, big}, {"208930000000001", 2, 1<<53 + 1}, {"208930000000002", 1, math.MaxInt64 - 5}, {"208930000000009", 1, -1}, {"208930000000001", 9, -1}, {"208930000000001", 0, -1}},
+			{{"208930000000001", 1, 100, false}, {"208930000000001", 2, 0, false}, {"208930000000002", 1, 1, false}, {"208930000000009", 1, 0, true}, {"208930000000001", 9, 0, true}, {"208930000000001", 0, 0, true}, {"208930000000002", math.MaxUint32, 0, true},
+				{"208930000000003", 1, -30, false}}, // (an account overdrawn by an earlier termination debit)
+			{{"208930000000001", 1, big, false}, {"208930000000001", 2, 1<<53 + 1, false}, {"208930000000002", 1, math.MaxInt64 - 5, false}, {"208930000000009", 1, 0, true}, {"208930000000001", 9, 0, true}, {"208930000000001", 0, 0, true}},
 		}
 		depth := 2
 		if rep.Tier == "thorough" {
@@ -266,11 +269,15 @@ func init() {
 			alphabet := func(bals map[int]int64) (ops []ccrOp) {
 				for ai := range targets {
 					b := bals[ai]
+					unknown := targets[ai].None
 					amts := []uint64{0, 1, 7, 1 << 31, 1 << 32, 1<<53 + 1, 1<<62 + 1, math.MaxInt64}
-					if b < 0 {
+					if unknown {
 						amts = []uint64{1, 1 << 32} // unknown subscriber / rating group: the amount plays no role
 					}
-					if b >= 0 {
+					if !unknown && b < 0 {
+						amts = []uint64{0, 1, 7, 30, 31} // overdrawn account: refunds around the debt, small debits
+					}
+					if !unknown && b >= 0 {
 						amts = append(amts, uint64(b), uint64(b)+1)
 						if b > 0 {
 							amts = append(amts, uint64(b)-1)
@@ -288,11 +295,14 @@ func init() {
 									continue // the other actions: UPDATE, EVENT (and refund with TERMINATION) only
 								}
 								// stay inside int64 for the exact result
-								if b >= 0 && act == 1 && int64(amt) > math.MaxInt64-b {
+								if !unknown && b >= 0 && act == 1 && int64(amt) > math.MaxInt64-b {
 									continue
 								}
-								if b >= 0 && act == 0 && ty == 3 && int64(amt) > b {
-									continue // a termination debit beyond the balance is the CHF-side overdraft question (C06)
+								if !unknown && b < 0 && act == 0 && (ty == 1 || ty == 2) {
+									continue // what a reservation from an overdrawn account should grant is not stated by the property
+								}
+								if !unknown && b >= 0 && act == 0 && ty == 3 && int64(amt) > b && int64(amt) > b+31 {
+									continue // termination debits beyond the balance: only small overdrafts (the stored balance turns negative)
 								}
 								// half of the requests use the subscriber's Session-Id with a request number that depends on
 								// action and type only (as the CHF does per rating group: the same (session, number, type, action)
@@ -302,6 +312,14 @@ func init() {
 									op.Sess, op.Num = 1, uint32((act*4+ty)%5)
 								}
 								ops = append(ops, op)
+								if !unknown && amtIdx == 1 {
+									// the same digits under a Subscription-Id-Type that is not IMSI: no such subscriber
+									for _, st := range []int{1, 2} {
+										o2 := op
+										o2.SubT = st
+										ops = append(ops, o2)
+									}
+								}
 							}
 						}
 					}
@@ -382,7 +400,7 @@ func init() {
 		rep.Cov["exhaustive"] = exhaustive
 		rep.Cov["depth"] = depth
 		rep.Cov["distinct_outcomes"] = outcomes
-		rep.Cov["method"] = "breadth-first search over sequences of credit-control requests sent by a real go-diameter client over the modelled network to the server started by abmf.OpenServer; alphabet = 4 actions x request types x amounts {0,1,7,balance-1,balance,balance+1,2^31,2^32,2^53+1,2^62+1,2^63-1} x 7 targets (3 accounts, an unknown subscriber, unknown rating groups 9, 0 and 2^32-1), half of the requests under the subscriber's Session-Id with request numbers that recur across rating groups, from two sets of initial balances (small and near 2^62/2^63); reference model = a map of balances; states deduplicated by the stored balances"
+		rep.Cov["method"] = "breadth-first search over sequences of credit-control requests sent by a real go-diameter client over the modelled network to the server started by abmf.OpenServer; alphabet = 4 actions x request types x amounts {0,1,7,balance-1,balance,balance+1,2^31,2^32,2^53+1,2^62+1,2^63-1} x 8 targets (3 accounts, an overdrawn account, an unknown subscriber, unknown rating groups 9, 0 and 2^32-1; the same digits under Subscription-Id-Types other than IMSI), half of the requests under the subscriber's Session-Id with request numbers that recur across rating groups, from two sets of initial balances (small and near 2^62/2^63); reference model = a map of balances; states deduplicated by the stored balances"
 		rep.Assumptions = append(rep.Assumptions, "'no answer' is decided at quiescence of the whole world (every goroutine blocked), not by waiting")
 		return rep.Finish()
 	}
